@@ -9,7 +9,8 @@ namespace Treepath.Driver
 structure MState where
   heap : Heap
   root : Val
-  handles : List (Nat × Handle) := []
+  handles : List (Nat × Nat × Nat) := []          -- handle id ↦ (group, depth along `.parent`)
+  groups : Array (List HCell) := #[]              -- one group per result a handle was taken from
   nums : List (Nat × Nat) := []       -- heap id ↦ canonical number (first-visit order)
   views : List (Nat × Nat × String) := []          -- view id ↦ (heap id of the list, converter)
   iters : List (Nat × Nat × String × Nat × Bool) := []   -- iterator id ↦ (list heap id, conv, position, exhausted)
@@ -171,6 +172,13 @@ def resolveChain (st : MState) (chain : Json) : E (Except ApiErr Val × Json) :=
     let la ← getArr last
     return (data, ← declPath (.arr #[la[0]!, la[1]!]))
 
+/-- a list index aimed at a dict (after the container was replaced through the parent Match):
+Python would create / look up an int key, which no JSON document has — both sides skip -/
+def intOnDict (h : Heap) (hd : Handle) : Bool :=
+  match hd.parent, hd.name with
+  | .ref id, .idx _ => match h[id]? with | some (.dict _) => true | _ => false
+  | _, _ => false
+
 def predOf (name : String) (h : Heap) : Val → Bool := fun v =>
   let j := unfoldVal h 64 v
   match name with
@@ -179,6 +187,9 @@ def predOf (name : String) (h : Heap) : Val → Bool := fun v =>
   | "all" => true
   | "is_num" => match j with | .int _ | .half _ => true | _ => false
   | "small" => match j with | .int i => i < 2 | .half n => n < 4 | _ => false
+  | "is_bool" => match j with | .bool _ => true | _ => false
+  | "is_int" => match j with | .int _ => true | _ => false
+  | "is_float" => match j with | .half _ => true | _ => false
   | _ => false
 
 def getNatJ (j : Json) : E Nat := match j.getNat? with | .ok n => pure n | .error e => .error e
@@ -229,45 +240,58 @@ def runOp (st : MState) (op : Json) : E (MState × Json) := do
     match ms[k]?, exc with
     | none, some e => return finishErr st (errJ (.exc e))
     | m?, _ =>
-      match m?.bind Handle.ofNode with
-      | some hd =>
-        return finish { st with handles := (hid, hd) :: st.handles.filter (·.1 != hid) } "h" [.str hd.pathStr] none
+      match m?.bind (fun m => (groupHandle m.cells 0).map fun hd => (m.cells, hd)) with
+      | some (cs, hd) =>
+        return finish { st with groups := st.groups.push cs,
+                                handles := (hid, st.groups.size, 0) :: st.handles.filter (·.1 != hid) } "h" [.str hd.pathStr] none
       | none => return finish { st with handles := st.handles.filter (·.1 != hid) } "none" [] none
-  | [.str "h.assign", hid, vs] => do
+  | [.str "h.parent", nid, hid] => do
+    let nid ← match nid.getNat? with | .ok n => pure n | .error e => .error e
     let hid ← match hid.getNat? with | .ok n => pure n | .error e => .error e
     match st.handles.lookup hid with
     | none => return finish st "nohandle" [] none
-    | some hd =>
+    | some (g, d) =>
+      match groupHandle (st.groups[g]?.getD []) (d+1) with
+      | some hd => return finish { st with handles := (nid, g, d+1) :: st.handles.filter (·.1 != nid) } "h" [.str hd.pathStr] none
+      | none => return finish { st with handles := st.handles.filter (·.1 != nid) } "none" [] none
+  | [.str "h.assign", hid, vs] => do
+    let hid ← match hid.getNat? with | .ok n => pure n | .error e => .error e
+    match (st.handles.lookup hid).bind (fun gd => (groupHandle (st.groups[gd.1]?.getD []) gd.2).map fun hd => (gd, hd)) with
+    | none => return finish st "nohandle" [] none
+    | some ((g, d), hd) =>
+      if intOnDict st.heap hd then return finish st "skip" [] none else
       let (h, v) ← decValSpec st vs
       match hd.assign h v with
-      | .ok (h', hd') => return finish { st with heap := h', handles := (hid, hd') :: st.handles.filter (·.1 != hid) } "ok" [] none
+      | .ok (h', hd') => return finish { st with heap := h', groups := st.groups.modify g (groupStore · d hd') } "ok" [] none
       | .error e => return finishErr { st with heap := h } (hErrJ e)
   | [.str "h.del", hid] => do
     let hid ← match hid.getNat? with | .ok n => pure n | .error e => .error e
-    match st.handles.lookup hid with
+    match (st.handles.lookup hid).bind (fun gd => (groupHandle (st.groups[gd.1]?.getD []) gd.2).map fun hd => (gd, hd)) with
     | none => return finish st "nohandle" [] none
-    | some hd =>
+    | some ((g, d), hd) =>
+      if intOnDict st.heap hd then return finish st "skip" [] none else
       match hd.del st.heap with
-      | .ok (h', hd') => return finish { st with heap := h', handles := (hid, hd') :: st.handles.filter (·.1 != hid) } "ok" [] none
+      | .ok (h', hd') => return finish { st with heap := h', groups := st.groups.modify g (groupStore · d hd') } "ok" [] none
       | .error e => return finishErr st (hErrJ e)
   | [.str "h.pop", hid, d] => do
     let hid ← match hid.getNat? with | .ok n => pure n | .error e => .error e
-    match st.handles.lookup hid with
+    match (st.handles.lookup hid).bind (fun gd => (groupHandle (st.groups[gd.1]?.getD []) gd.2).map fun hd => (gd, hd)) with
     | none => return finish st "nohandle" [] none
-    | some hd =>
+    | some ((g, dp), hd) =>
+      if intOnDict st.heap hd then return finish st "skip" [] none else
       let (h, dv) ← decDflt st d
       match hd.pop h dv with
-      | .ok (h', hd', v) => return finish { st with heap := h', handles := (hid, hd') :: st.handles.filter (·.1 != hid) } "ok" [] (some v)
+      | .ok (h', hd', v) => return finish { st with heap := h', groups := st.groups.modify g (groupStore · dp hd') } "ok" [] (some v)
       | .error e => return finishErr { st with heap := h } (hErrJ e)
   | [.str "h.data", hid] => do
     let hid ← match hid.getNat? with | .ok n => pure n | .error e => .error e
-    match st.handles.lookup hid with
+    match (st.handles.lookup hid).bind (fun gd => groupHandle (st.groups[gd.1]?.getD []) gd.2) with
     | none => return finish st "nohandle" [] none
     | some hd => return finish st "ok" [] (some hd.cache)
   | [.str "d.get", chain, .str getter, .str conv] => do
     let (data, p) ← resolveChain st chain
     let c := convOf conv
-    let g : Getter := match getter with | "find" => .find | "get_match" => .getMatch | _ => .get
+    let g : Getter := match getter with | "find" | "itc" | "itx" => .find | "get_match" => .getMatch | _ => .get
     match data with
     | .error e => return finishErr st (errJ e)
     | .ok d =>
@@ -284,7 +308,7 @@ def runOp (st : MState) (op : Json) : E (MState × Json) := do
     match data with
     | .error e => return finishErr st (errJ e)
     | .ok d =>
-      let r := if kind == "iter" then descrSetIter st.heap else descrSet (convOf conv) (stepsOfJson p) st.heap d v
+      let r := if kind.startsWith "iter" then descrSetIter st.heap else descrSet (convOf conv) (stepsOfJson p) st.heap d v
       let _ := setter
       match r with
       | (h', .ok _) => return finish { st with heap := h' } "ok" [] none
